@@ -230,7 +230,7 @@ def rmapPanics (S : TySem) (m : List (Nat × Val)) : RMap.Diff Nat Val (List (Na
   | .replace _ => false
   | .modify es =>
     let m0 := RMap.collect m
-    let m1 := es.foldl (fun m e => match e with | .remove k => RMap.kremove m k | _ => m) m0
+    let m1 := es.foldl RMap.remStep m0
     es.any fun e => match e with
       | .change k d => match RMap.kget m1 k with
         | some v => match S.applyMut v d with | .ok _ => false | .error _ => true
@@ -334,9 +334,12 @@ def setAt : Vals → Nat → Val → Vals
 def setterCall (fs : Fields) (x : Val) (i : Nat) (value : Val) : Option (Option Entry × Val) :=
   match x, fieldAt fs i with
   | .strct vs, some (false, F) =>
-    match valAt vs i, F.setter <$> valAt vs i <*> some value with
-    | some _, some (some ret) => some (ret.map (fun p => (i, p)), .strct (setAt vs i value))
-    | _, _ => none
+    match valAt vs i with
+    | some old =>
+      match F.setter old value with
+      | some ret => some (ret.map (fun p => (i, p)), .strct (setAt vs i value))
+      | none => none
+    | none => none
   | _, _ => none
 
 end Derive
